@@ -4,7 +4,7 @@
    optimiser kernels). *)
 From Coq Require Import Reals Lra List.
 From Coquelicot Require Import Complex.
-From SpdVerif Require Import Base.CfgNumOps Model.NumInst Spec.ConfigSpec Model.ConfigTypes Model.Config Model.NormSpectrum.
+From SpdVerif Require Import Base.CfgNumOps Model.NumInst Spec.ConfigSpec Gen.ConfigSites Model.ConfigTypes Model.Config Model.NormSpectrum Proofs.C20_idempotent.
 Import ListNotations.
 Local Open Scope R_scope.
 
@@ -147,3 +147,16 @@ Section Proofs.
     destruct (Req_EM_T (Cmod (jsa_raw s ws wi) ^ 2) 0); unfold Rdiv; ring.
   Qed.
 End Proofs.
+
+(* FULL STRENGTH for the code as it is now: EVERY optimised setup has unit normalised values at its centre *)
+Theorem unit_at_centre_of_optimum K minpos jsa_raw singles_raw norm_jsi norm_singles freq s so nf j :
+  collinear_contract K -> try_as_optimum_now K minpos s = Ok (so, nf) ->
+  joint_spectrum_new K minpos optimum_idler_sees_old_poling optimum_waist_sees_old_idler jsa_raw singles_raw norm_jsi norm_singles freq so = Ok j ->
+  let '(w0s, w0i) := center freq so in
+  (jsa_of jsa_raw norm_jsi so w0s w0i <> 0%C -> Cmod (jsa_normalized jsa_raw norm_jsi j w0s w0i) = 1) /\
+  (0 <= norm_jsi so w0s w0i -> jsi_of jsa_raw norm_jsi so w0s w0i <> 0 -> jsi_normalized jsa_raw norm_jsi j w0s w0i = 1) /\
+  (singles_of singles_raw norm_singles so w0s w0i <> 0 -> jsi_singles_normalized singles_raw norm_singles j w0s w0i = 1).
+Proof.
+  intros HK Ho Hn. apply (unit_at_centre K minpos optimum_idler_sees_old_poling optimum_waist_sees_old_idler jsa_raw singles_raw norm_jsi norm_singles freq so nf j); [| exact Hn].
+  exact (optimum_idempotent_now K minpos s so nf HK Ho).
+Qed.
